@@ -10,6 +10,7 @@ import fam_search
 import fam_minmax
 import fam_merge
 import fam_query
+import fam_fsstore
 
 
 class WritePathFamily:
@@ -47,7 +48,14 @@ class QueryFamily:
     evidence = staticmethod(fam_query.evidence)
 
 
-FAMILIES = [WritePathFamily, SearchFamily, MinMaxFamily, MergeFamily, QueryFamily]
+class FSStoreFamily:
+    NAME = "fsstore"
+    PROPS = fam_fsstore.PROPS
+    compute = staticmethod(fam_fsstore.compute)
+    evidence = staticmethod(fam_fsstore.evidence)
+
+
+FAMILIES = [WritePathFamily, SearchFamily, MinMaxFamily, MergeFamily, QueryFamily, FSStoreFamily]
 
 # families whose monitors also judge predicates of a property owned by another family: their
 # violations of that property are reported by the property's check as well
